@@ -108,7 +108,8 @@ impl<F: Float, O> ParamGuard for PlattParams<F, O> {
     fn check_ref(&self) -> Result<&Self::Checked, PlattError> {
         if self.0.maxiter == 0 {
             Err(PlattError::MaxIterReached)
-        } else if self.0.minstep.is_negative() {
+        } else if self.0.minstep <= F::zero() {
+            // a zero minimum step never ends the line search: the halved step stays at zero for ever
             Err(PlattError::MinStepNegative(
                 self.0.minstep.to_f32().unwrap(),
             ))
